@@ -458,6 +458,13 @@ impl Check for C15 {
                 if let Err(e) = check_a(&d, o) {
                     st.violation("roundtrip:array", e, &txt);
                 }
+                // the same array reached twice inside one value (no cycle): its text is written out both times
+                let once = format!("{}", o);
+                let twice = Object::array(vec![o, o], &mut gc);
+                let got = format!("{}", twice);
+                if !once.contains("[...]") && got != format!("[{}, {}]", once, once) {
+                    st.violation("roundtrip:array-shared-rendering", format!("an array that holds the same array twice is rendered as {}, the array itself as {}", crate::obs::clip(&got, 300), crate::obs::clip(&once, 150)), &txt);
+                }
             }
             "cross-type-equality" => {
                 // through the language: two values of different type are never equal, whichever instruction the compiler
